@@ -744,6 +744,15 @@ impl RuntimeCpuFeatures {
 // Global CPU feature detection
 static CPU_FEATURES: OnceLock<CpuFeatures> = OnceLock::new();
 
+/// Verification hook: pre-set the process-wide CPU feature record before its first use, so
+/// that a counterexample found for a modelled CPU tier can be replayed natively on that tier.
+/// Returns false if the features were already initialised.
+#[cfg(feature = "zipora_verif")]
+#[doc(hidden)]
+pub fn verif_set_cpu_features(features: CpuFeatures) -> bool {
+    CPU_FEATURES.set(features).is_ok()
+}
+
 /// Get the global CPU features (detected once on first call)
 /// 
 /// This is the main API for accessing CPU features with comprehensive
